@@ -313,6 +313,13 @@ def aliasing_after_the_fact(ctx):
                 ctx.violation(f'mutating {names[which]} afterwards changed {names[i]}', case)
 
 
+def obs_variant(area, variant):
+    from gym_gridverse.envs import observation_functions as ofs, visibility_functions as vfs
+    if variant is None:
+        return comp.build_obs({'name': 'raytracing', 'area': area})
+    return ofs.factory('from_visibility', area=comp.area_of(area), visibility_function=vfs.factory('raytracing', absolute_counts=variant[0], threshold=variant[1]))
+
+
 def large_view_histories(ctx):
     """history-independence where hidden shared state would matter most: deterministic observations with LARGE views (hundreds of rays)
     are recorded, then the stochastic observation function and other view sizes are used on other states, then the same questions are
@@ -328,8 +335,11 @@ def large_view_histories(ctx):
             p, o = (r.randrange(h), r.randrange(w)), r.randrange(4)
             g = gen.set_cell(g, p, gen.FLOOR)
             cs = (g, p, o, gen.NONE)
-            f = comp.build_obs({'name': 'raytracing', 'area': area})
-            recorded.append((area, cs, wire.cstate(f(wire.mkstate(cs)))))
+            # the default ray-traced view (one lit ray suffices) and the library's other parameterisations of it (a fraction / a number of lit rays:
+            # these depend on the whole multiset of rays, so anything that leaks into the fan shows)
+            variant = r.choice([None, None, (False, 0.5), (False, 0.34), (True, 2), (True, 3)])
+            f = obs_variant(area, variant)
+            recorded.append((area, cs, wire.cstate(f(wire.mkstate(cs))), variant))
     # other activity: the stochastic variant with the same and other view sizes, on other states
     for area in views + [(-6, 0, -3, 3), (-4, 0, -2, 2)]:
         fs = comp.build_obs({'name': 'stochastic_raytracing', 'area': area})
@@ -338,8 +348,8 @@ def large_view_histories(ctx):
             g = tuple(tuple(gen.WALL if r.random() < 0.22 else gen.FLOOR for _ in range(w)) for _ in range(h))
             p = (r.randrange(h), r.randrange(w))
             fs(wire.mkstate((gen.set_cell(g, p, gen.FLOOR), p, r.randrange(4), gen.NONE)), rng=np.random.default_rng(r.randrange(1 << 30)))
-    for area, cs, before in recorded:
-        f = comp.build_obs({'name': 'raytracing', 'area': area})
+    for area, cs, before, variant in recorded:
+        f = obs_variant(area, variant)
         ctx.case(('large-view-history', area, cs), True, None)
         ctx.count('large view asked again', f'{area[1] - area[0] + 1}x{area[3] - area[2] + 1}')
         if wire.cstate(f(wire.mkstate(cs))) != before:
